@@ -21,6 +21,7 @@ structure Case where
   curNet : Array (NetNode × String) := #[]
   prevVals : List (String × Nat × Array (Option BV4)) := []   -- tag ↦ (cycle, values seen by consumers at that cycle)
   resets : List (String × Nat × Bool) := []                 -- (tag, cycle) ↦ reset asserted at the sample point
+  auto : List (String × Nat × Array (Option BV4)) := []     -- tag ↦ (cycle, values of the autonomous Lean run `seqRun` at that cycle)
 
 structure Stats where
   cases : Nat := 0
@@ -42,6 +43,9 @@ structure Stats where
   regSkips : Nat := 0            -- transitions not checked because the reset changed between the two sample points
   regResetEvals : Nat := 0       -- … of which taken in reset
   regEnableEvals : Nat := 0      -- … of which with a connected enable
+  autoEvals : Nat := 0           -- node values of the autonomous clocked Lean run (register state carried by the model) compared with the simulator
+  autoCycles : Nat := 0          -- cycles of autonomous runs
+  autoRestarts : Nat := 0        -- autonomous runs (re)started from the simulator's register values (first cycle, reset changing)
   kindHist : List (String × Nat) := []
   hist : List (String × Nat) := []
 
@@ -131,6 +135,43 @@ def recheckRegs (nodes : Array (NetNode × String)) (prev : Array (Option BV4)) 
     | _, _ => pure ()
   return (bad.reverse, evals, withEn)
 
+/-- one cycle of the autonomous clocked run (`Gatery.Nodes.seqRun`, incrementally): pins from the stimulus, register outputs from the
+    model's own state (`regs`, none = take the simulator's value: start of a run), every other node by `evalNode` on MODEL values;
+    returns the model values and the nodes where the simulator differs -/
+def autoCycle (nodes : Array (NetNode × String)) (impl : Array (Option BV4)) (regs : Option (Array (Option BV4))) :
+    Array (Option BV4) × List (Nat × String × String) × Nat := Id.run do
+  let mut vals : Array (Option BV4) := Array.replicate nodes.size none
+  let mut bad : List (Nat × String × String) := []
+  let mut evals := 0
+  for i in [0:nodes.size] do
+    let (n, name) := nodes[i]!
+    let ins : Ins := n.ins.map fun o => match o with | none => none | some j => (vals.getD j none)
+    let model : Option BV4 := match n.kind with
+      | .signal => ins.getD 0 none
+      | .node k _ => (match impl.getD i none with | none => none | some _ => some (evalNode k n.w ins))   -- a node without simulator state (optimised away) has none
+      | .input _ => if name == "reg" then (match regs with | some r => r.getD i none | none => impl.getD i none) else impl.getD i none
+    vals := vals.set! i model
+    match impl.getD i none, model with
+    | some v, some m =>
+      if name != "in" then
+        evals := evals + 1
+        if m != v then bad := (i, BV4.toString m, BV4.toString v) :: bad
+    | _, _ => pure ()
+  return (vals, bad.reverse, evals)
+
+/-- the model's register values after the clock edge following a cycle with model values `prev` -/
+def autoNextRegs (nodes : Array (NetNode × String)) (prev : Array (Option BV4)) (inReset : Bool) : Array (Option BV4) := Id.run do
+  let mut regs : Array (Option BV4) := Array.replicate nodes.size none
+  for i in [0:nodes.size] do
+    let (n, name) := nodes[i]!
+    if name != "reg" then continue
+    match prev.getD i none with
+    | some old =>
+      let port := fun (k : Nat) => look prev.toList ((n.ins.getD k none))
+      regs := regs.set! i (some (regEdge n.w (port 0) (port 1) (port 2) inReset old))
+    | none => pure ()
+  return regs
+
 partial def loop (h : IO.FS.Stream) (c : Case) (st : Stats) : IO Stats := do
   let line ← h.getLine
   if line.isEmpty then finish c st
@@ -194,6 +235,27 @@ partial def loop (h : IO.FS.Stream) (c : Case) (st : Stats) : IO Stats := do
           | _, _ => pure ()
       | none => pure ()
       let c := { c with prevVals := (tag, cycN, vals) :: c.prevVals.filter (·.1 != tag) }
+      -- autonomous clocked run: the register state is carried by the model from cycle to cycle
+      let regsNow : Option (Array (Option BV4)) :=
+        match c.auto.find? (·.1 == tag) with
+        | some (_, pc, pv) =>
+          if pc + 1 == cycN then
+            match rst pc, rst cycN with
+            | some r0, some r1 => if r0 == r1 then some (autoNextRegs nodes pv r0) else none
+            | _, _ => none
+          else none
+        | none => none
+      let (avals, abad, aevals) := autoCycle nodes impl regsNow
+      st := { st with autoEvals := st.autoEvals + aevals, autoCycles := st.autoCycles + 1,
+                      autoRestarts := st.autoRestarts + (if regsNow.isNone then 1 else 0) }
+      match abad with
+      | [] => pure ()
+      | (i, m, v) :: _ =>
+        let kind := (nodes[i]?.map (·.2)).getD "?"
+        IO.println s!"DIFF case={c.id} what=seqrun net={tag} cycle={cyc} node={i} kind={kind} model={m} impl={v} (and {abad.length - 1} more)"
+        st := { st with diffs := st.diffs + 1 }
+      -- after a difference the run is restarted from the simulator's values so that one cause is reported once
+      let c := { c with auto := if abad.isEmpty then (tag, cycN, avals) :: c.auto.filter (·.1 != tag) else c.auto.filter (·.1 != tag) }
       loop h c st
   | ["nr", tag, cyc, r] => loop h { c with resets := (tag, cyc.toNat!, r == "1") :: c.resets } st
   | ["end"] =>
@@ -204,4 +266,4 @@ partial def loop (h : IO.FS.Stream) (c : Case) (st : Stats) : IO Stats := do
 def main : IO Unit := do
   let st ← loop (← IO.getStdin) {} {}
   let hist := ",".intercalate (st.hist.map fun (k, n) => s!"\"{k}\":{n}")
-  IO.println s!"SUMMARY \{\"cases\":{st.cases},\"ops\":{st.ops},\"diffs\":{st.diffs},\"propfails\":{st.propfails},\"fully_defined_reference_runs\":{st.adefCases},\"postprocess_threw\":{st.ppfail},\"pass_boundaries\":{st.boundaries},\"boundaries_not_simulatable\":{st.nosim},\"boundaries_with_changed_trace\":{st.changedBoundaries},\"cycles\":{st.cycles},\"netlists_rechecked\":{st.nets},\"netlists_skipped\":{st.netSkips},\"node_values_rechecked_with_lean_semantics\":{st.nodeEvals},\"register_transitions_rechecked_with_lean_semantics\":{st.regEvals},\"register_transitions_in_reset\":{st.regResetEvals},\"register_transitions_with_enable\":{st.regEnableEvals},\"register_transitions_skipped_reset_changing\":{st.regSkips},\"hist\":\{{hist}}}"
+  IO.println s!"SUMMARY \{\"cases\":{st.cases},\"ops\":{st.ops},\"diffs\":{st.diffs},\"propfails\":{st.propfails},\"fully_defined_reference_runs\":{st.adefCases},\"postprocess_threw\":{st.ppfail},\"pass_boundaries\":{st.boundaries},\"boundaries_not_simulatable\":{st.nosim},\"boundaries_with_changed_trace\":{st.changedBoundaries},\"cycles\":{st.cycles},\"netlists_rechecked\":{st.nets},\"netlists_skipped\":{st.netSkips},\"node_values_rechecked_with_lean_semantics\":{st.nodeEvals},\"register_transitions_rechecked_with_lean_semantics\":{st.regEvals},\"register_transitions_in_reset\":{st.regResetEvals},\"register_transitions_with_enable\":{st.regEnableEvals},\"register_transitions_skipped_reset_changing\":{st.regSkips},\"seqrun_node_values_compared\":{st.autoEvals},\"seqrun_cycles\":{st.autoCycles},\"seqrun_restarts_from_simulator_state\":{st.autoRestarts},\"hist\":\{{hist}}}"
